@@ -60,3 +60,13 @@ VARIANTS += [
     V("cpu-noise-from-torch-generator-again", BI, "    if torch.device(device).type == 'cpu':\n", "    if False:\n", rule="R04.9"),
     V("twin-cpu-noise-philox", BI, "np.random.Generator(np.random.PCG64(int(seed)))", "np.random.Generator(np.random.Philox(int(seed)))", expect="silent"),
 ]
+
+VARIANTS += [
+    # session-4 repair: the root's variance is the length of the node it covers (the unrepaired code used t1 - t0)
+    V("root-variance-unrounded-length", BI, "W = self._randn(initial_W_seed) * math.sqrt(self._end - self._start)",
+      "W = self._randn(initial_W_seed) * math.sqrt(t1 - t0)", rule="R04.2"),
+    V("root-H-variance-unrounded-length", BI, "H = self._randn(initial_H_seed) * math.sqrt((self._end - self._start) / 12)",
+      "H = self._randn(initial_H_seed) * math.sqrt((t1 - t0) / 12)", rule="R04.2"),
+    V("twin-root-length-temporary", BI, "            W = self._randn(initial_W_seed) * math.sqrt(self._end - self._start)",
+      "            length = self._round(t1) - self._round(t0)\n            W = self._randn(initial_W_seed) * math.sqrt(length)", expect="silent"),
+]
